@@ -191,6 +191,14 @@ func (s *Sim) buildPoolTx(kind int) *MTx {
 		case 2:
 			seq = 0xfffffffe
 		}
+		if kind == 1 && c.Bool(120, "ptx-relative-lock") {
+			// a one-block relative lock on an output that is not confirmed
+			// yet: cannot be in the next block, so the pool must not hold it
+			// as minable
+			seq = 1
+			p.Version = 2
+			s.r.Probe("pool-tx-with-relative-lock-on-pooled-parent")
+		}
 		p.Ins = append(p.Ins, planIn{Op: op, Rec: recs[op], Seq: seq})
 		total += recs[op].Value
 	}
